@@ -5,6 +5,7 @@ import (
 	"fmt"
 	"sort"
 	"sync"
+	"time"
 
 	"github.com/gotd/td/telegram"
 	"github.com/gotd/td/telegram/updates"
@@ -78,6 +79,13 @@ type world struct {
 
 	// crash support for C03: snapshot of storage at chosen trace indexes
 	store *memStorage
+
+	// channels the client does not know at the start (nothing stored): it starts
+	// such a channel right before the first update it is pushed
+	unknown       map[string]bool
+	learnedStart  map[string]int // position before the first pushed update
+	learnedAt     map[string]int // trace length at the quiescent point after that push
+	chDiffLatency time.Duration
 }
 
 func chSeq(id int64) string { return fmt.Sprintf("ch:%d", id) }
@@ -287,6 +295,13 @@ func (a api) UpdatesGetDifference(ctx context.Context, req *tg.UpdatesGetDiffere
 
 func (a api) UpdatesGetChannelDifference(ctx context.Context, req *tg.UpdatesGetChannelDifferenceRequest) (tg.UpdatesChannelDifferenceClass, error) {
 	w := a.w
+	if w.chDiffLatency > 0 {
+		select {
+		case <-time.After(w.chDiffLatency):
+		case <-ctx.Done():
+			return nil, ctx.Err()
+		}
+	}
 	w.mu.Lock()
 	defer w.mu.Unlock()
 	id := req.Channel.(*tg.InputChannel).ChannelID
@@ -563,6 +578,14 @@ func (w *world) missing(upTo int) []entry {
 // return them to a client that is already at their pts), so they are required
 // only if some difference carried them.
 func (w *world) missingFrom(delivered map[int]bool, tooLong map[string][][2]int, inDiff map[int]bool) []entry {
+	return w.missingFromAt(-1, delivered, tooLong, inDiff)
+}
+
+// missingFromAt: crashAt is the trace index of the crash (-1: none). Of a
+// channel the client did not know at the start, only what follows the first
+// pushed update is owed, and only if the client had consumed that update (the
+// quiescent point after the push) before the crash.
+func (w *world) missingFromAt(crashAt int, delivered map[int]bool, tooLong map[string][][2]int, inDiff map[int]bool) []entry {
 	var out []entry
 	seqs := make([]string, 0, len(w.logs))
 	for s := range w.logs {
@@ -577,6 +600,13 @@ func (w *world) missingFrom(delivered map[int]bool, tooLong map[string][][2]int,
 			}
 			if e.end == e.start && !inDiff[e.tag] {
 				continue
+			}
+			if w.unknown[s] {
+				ls, learned := w.learnedStart[s]
+				at, done := w.learnedAt[s]
+				if !learned || !done || e.end <= ls || (crashAt >= 0 && crashAt < at) {
+					continue
+				}
 			}
 			for _, r := range tooLong[s] {
 				if e.end > r[0] && e.end <= r[1] {
@@ -615,6 +645,9 @@ func (w *world) checkPersist() string {
 			for _, e := range w.logs[ev.seq] {
 				if e.end == e.start && !inDiff[e.tag] {
 					continue // occupies no position and no difference carried it: not recoverable by design
+				}
+				if ls, learned := w.learnedStart[ev.seq]; w.unknown[ev.seq] && (!learned || e.end <= ls) {
+					continue // before the point where the client first heard of this channel
 				}
 				if e.end <= ev.value && !delivered[e.tag] && e.end > reported[ev.seq] {
 					return fmt.Sprintf("trace[%d]: saved %s=%d covers %v which has not been handed to the handler (nor reported too long)", i, ev.seq, ev.value, e)
